@@ -145,6 +145,7 @@ def flags_for(driver, approved):
 
 
 def execute(case, ctx):
+    ctx.persistent = True  # plugin sessions of this history share one directory incl. __pycache__ (logical clock for mtimes, see sim.sync_tree)
     import copy
 
     prog = copy.deepcopy(case["program"])
